@@ -22,9 +22,13 @@ META = {
             "snorm(decomment s): the byte-level normal form - every byte, plus a separator exactly between two bytes of which the "
             "first is not one of {};,>: and the second not one of {};,>, semicolons merged and dropped before '}' - is the same for the "
             "output and for the comment-stripped input, so no separator between two such bytes and no non-redundant semicolon is ever "
-            "dropped or invented). partial: the last step from the byte-level normal form to CSS tokens (that under css_guard - no "
+            "dropped or invented); C34_tokens_preserved_partial0: hence the normalised token sequence of the sub-grammar "
+            "(whitespace, comments, strings, the one-byte tokens {};,>: and runs of all other bytes) read off that normal form, "
+            "ntoks0 = tlex o snorm, is the same for the tagged output and for css_lex0's input stream. partial: the last step from the byte-level normal form to CSS tokens (that under css_guard - no "
             "run-comment-run, no backslash outside strings, no unclosed string - norm(css_lex s) is a function of snorm(decomment s), "
-            "for the input and for the re-lexed output) is not proved; token preservation under css_guard is evaluated on the model "
+            "for the input and for the re-lexed output) is not proved: the three bridges norm(tlex l) = tlex(snorm l), css_lex0 = css_lex "
+            "modulo norm, and re-scanning the output finds the minifier's string tags are evaluated per case (Model.bridge_b, "
+            "unfinished proof in coq/Css/Lex0.v.unfinished); token preservation under css_guard is evaluated on the model "
             "(vm_compute) and on the real output (CSS Syntax 3 tokenizer) for every generated stylesheet and the shipped CSS",
     "note": "Trusted: Coq kernel; hand-written automaton model of MinifyCSS tied to the code by byte-for-byte correspondence; the "
             "Python CSS Syntax 3 tokenizer used as oracle; css_lex treats unquoted url(...) bodies as ordinary tokens.",
@@ -505,7 +509,7 @@ def run(ck):
               "the step from the byte-level normal form (snorm/decomment, proved) to css_lex tokens under css_guard is evaluated (model and real code), not proved")
     ck.trusted("harness/C34/c34_test.go (in-package overlay of internal/util/javascript), props/C34.py generators, CSS Syntax 3 tokenizer oracle and comparison",
                "correspondence and css_guard/preserved_b evaluated by vm_compute in a generated cases file")
-    ck.coq_stage(GROUP, theorems=["C34_refuted", "C34_essential_bytes_partial", "C34_separators_partial"])
+    ck.coq_stage(GROUP, theorems=["C34_refuted", "C34_essential_bytes_partial", "C34_separators_partial", "C34_tokens_preserved_partial0"])
     broken = getattr(ck, "coq_broken", None)
 
     ok, binp = vf.go_test_build(ck.work, "internal/util/javascript", {"internal/util/javascript/zz_verif_c34_test.go":
